@@ -271,7 +271,9 @@ int vf_link(const char *a, const char *b)
   CHECK(isync == ilen, "C12: fsync succeeded after the last write, before link");
   CHECK(closed_ok, "C12: close succeeded before link");
   CHECK(!fault_hit, "C12: no failed call is ignored before link");
-  if (draw()) { fault_hit = f_link = 1; errno = EIO; return -1; }
+  /* link may fail for any reason; EEXIST in particular means the new/ name is already taken
+   * by ANOTHER delivery - the message of this delivery is then not in new/ */
+  { unsigned char t = draw(); if (t) { fault_hit = f_link = 1; errno = (t & 2) ? EEXIST : EIO; return -1; } }
   new_x = 1;
   return 0;
 }
